@@ -28,7 +28,9 @@ type ReusableWorkflowMetadataInput struct {
 	// Required is true when 'required' field of the input is set to true and no default value is set.
 	Required bool
 	// Type is a type of the input. When the input type is unknown, 'any' type is set.
-	Type ExprType
+	// It is never decoded from YAML directly: go-yaml skips UnmarshalYAML for a node tagged `!!null` and
+	// would panic on assigning the `type:` string to this interface field.
+	Type ExprType `yaml:"-"`
 }
 
 // UnmarshalYAML implements yaml.Unmarshaler.
